@@ -47,7 +47,7 @@ def run(ctx):
         if kind in ("unwrap", "expect"):
             # allowed only as `tree.iter().next().unwrap()` on the branch where size < k is false
             arg = tb.operand(add.blocks[bi].term.args[0], bi, len(add.blocks[bi].stmts))
-            full = dict((repr(c), t) for c, t in facts).get(repr(mk("Lt", ("call", "std::collections::HashMap::len", (("field", selfp, "obj2count"),)), ("field", selfp, "k"))))
+            full = fv(dict((repr(c), t) for c, t in facts), mk("Lt", ("call", "std::collections::HashMap::len", (("field", selfp, "obj2count"),)), ("field", selfp, "k")))
             is_min = arg[0] == "adt" and arg[2] == "Some" and arg[3][0][1] == ("elem", ("field", selfp, "tree"))
             ctx.check(is_min and full is False, "R10-no-belief-panic", "%s:unwrap" % add.key, span,
                       "tree.iter().next().unwrap() only when size >= k >= 1 (tree non-empty by R10-paired)",
@@ -166,45 +166,75 @@ def order_and_config_rules(ctx, add, new):
     # ---- k >= 1, config ---------------------------------------------------------------------
     cf = config_fields(ctx, CH)
     ctx.check("k" in cf, "R10-config", CH + ":k", add, "k is never written outside the constructor", "field k is written by a method")
-    agg_bb = None
-    for bi, blk in enumerate(new.blocks):
-        for st in blk.stmts:
-            if st.k == "assign" and st.rv.k == "aggregate" and st.rv.j.get("adt") == CH:
-                agg_bb = bi
+    from .common import construction_blocks
+    agg_bb = (construction_blocks(ctx, new, CH) or [None])[-1]
     lo = int_bounds(atomic_facts(new, prog, agg_bb), ("param", 1, "k"))[0] if agg_bb is not None else None
     ctx.check(lo is not None and lo >= 1, "R10-k-positive", new.key, new, "new() establishes k >= %s" % lo, "new() does not establish k >= 1")
 
     # ---- R10-order --------------------------------------------------------------------------------
     cmpf = ctx.anchor("<%s as std::cmp::Ord>::cmp" % TE)
     if cmpf is not None:
-        tbc = TermBuilder(cmpf, prog)
-        first = None
-        obj_cmp_bb = None
-        for bi in cmpf.rpo():
-            t = cmpf.blocks[bi].term
-            if t.k == "call" and t.callee_name() == "cmp":
-                a = [tbc.operand(x, bi, len(cmpf.blocks[bi].stmts)) for x in t.args]
-                if first is None:
-                    first = (bi, a)
-                elif a[0] == ("field", ("param", 1, "self"), "obj") and a[1] == ("field", ("param", 2, "other"), "obj"):
-                    obj_cmp_bb = bi
-        okc = first is not None and first[1][0] == ("field", ("param", 1, "self"), "n") and first[1][1] == ("field", ("param", 2, "other"), "n") and obj_cmp_bb is not None
-        # the obj comparison is reached only on the Equal arm of the first comparison
-        if okc:
-            facts = atomic_facts(cmpf, prog, obj_cmp_bb, tbc)
-            okc = any(c[0] == "op" and c[1] == "Eq" and c[2][1] == const(0) and t for c, t in facts) or any(c[0] == "op" and c[1] == "Eq" and t for c, t in facts)
-        if not okc:
-            # combinator form: self.n.cmp(&other.n).then_with(|| self.obj.cmp(&other.obj))
-            from ..terms import apply_closure
-            r = tbc.return_term()
-            sp, op_ = ("param", 1, "self"), ("param", 2, "other")
-            if r[0] == "call" and r[1].endswith("then_with") and len(r[2]) == 2 and r[2][0][0] == "call" and r[2][0][1].endswith("::cmp") \
-                    and r[2][0][2] == (("field", sp, "n"), ("field", op_, "n")):
-                inner = apply_closure(r[2][1], ())
-                okc = inner[0] == "call" and inner[1].endswith("::cmp") and inner[2] == (("field", sp, "obj"), ("field", op_, "obj"))
-        # Greater/Less arms return what the n-comparison says
-        pec = PathEnumerator(cmpf, prog, ctx.summ)
-        ctx.check(okc, "R10-order", cmpf.key, cmpf, "TreeEntry::cmp compares n first and obj only when n is equal", "TreeEntry::cmp is not lexicographic on (n, obj)")
+        okc, why = lexicographic_cmp(ctx, cmpf)
+        ctx.check(okc, "R10-order", cmpf.key, cmpf, "TreeEntry::cmp compares n first and obj only when n is equal", "TreeEntry::cmp is not lexicographic on (n, obj): %s" % why)
+
+
+def lexicographic_cmp(ctx, cmpf):
+    """Decision table of TreeEntry::cmp over its returning paths: n equal -> the result of comparing obj; self.n > other.n ->
+    Greater; self.n < other.n -> Less. The relation of the two counters on a path is read from the arm of `self.n.cmp(&other.n)`
+    taken, or from the ==/</> tests taken; the `then_with` combinator is the same table by its library semantics."""
+    from ..terms import apply_closure
+    prog = ctx.prog
+    sp, op_ = ("param", 1, "self"), ("param", 2, "other")
+    sn, on = ("field", sp, "n"), ("field", op_, "n")
+    so, oo = ("field", sp, "obj"), ("field", op_, "obj")
+    tbc = TermBuilder(cmpf, prog)
+    r = tbc.return_term()
+    if r[0] == "call" and r[1].endswith("then_with") and len(r[2]) == 2 and r[2][0][0] == "call" and r[2][0][1].endswith("::cmp") and r[2][0][2] == (sn, on):
+        inner = apply_closure(r[2][1], ())
+        ok = inner[0] == "call" and inner[1].endswith("::cmp") and inner[2] == (so, oo)
+        return ok, "then_with continues with %s" % fmt(inner)[:80]
+    n_cmp = ("call", "discriminant", (("call", "<usize as std::cmp::Ord>::cmp", (sn, on)),))
+    pe = PathEnumerator(cmpf, prog, ctx.summ)
+    seen = set()
+    for p in pe.paths():
+        if p.exit_kind != "return":
+            continue
+        rel = None
+        for e in p.events:
+            if e["kind"] == "branch" and e.get("cond") == n_cmp and isinstance(e["value"], int):
+                rel = {255: "lt", -1: "lt", 0: "eq", 1: "gt"}.get(e["value"])
+        if rel is None:
+            fd = {repr(c): t for c, t in pe.path_facts(p)}
+            eq, gt, lt = fv(fd, mk("Eq", sn, on)), fv(fd, mk("Lt", on, sn)), fv(fd, mk("Lt", sn, on))
+            if eq is True:
+                rel = "eq"
+            elif gt is True or (eq is False and lt is False):
+                rel = "gt"
+            elif lt is True or (eq is False and gt is False):
+                rel = "lt"
+        if rel is None:
+            return False, "a returning path does not determine how self.n relates to other.n"
+        # the value returned on this path: last definition of _0 along it
+        rv = None
+        for b in reversed(p.blocks):
+            blk = cmpf.blocks[b]
+            for si in range(len(blk.stmts) - 1, -1, -1):
+                st = blk.stmts[si]
+                if st.k == "assign" and st.place.is_local() and st.place.local == 0:
+                    rv = tbc.rvalue(st.rv, b, si)
+                    break
+            if rv is None and blk.term.k == "call" and blk.term.dest is not None and blk.term.dest.is_local() and blk.term.dest.local == 0:
+                rv = tbc.call_term(blk.term, b)
+            if rv is not None:
+                break
+        want = {"eq": None, "gt": "Greater", "lt": "Less"}[rel]
+        if rel == "eq":
+            if not (rv is not None and rv[0] == "call" and rv[1].endswith("::cmp") and rv[2] == (so, oo)):
+                return False, "equal counters return %s instead of comparing obj" % (fmt(rv) if rv else "?")
+        elif not (rv is not None and rv[0] == "adt" and rv[2] == want):
+            return False, "self.n %s other.n returns %s" % ("<" if rel == "lt" else ">", fmt(rv) if rv else "?")
+        seen.add(rel)
+    return seen == {"eq", "gt", "lt"}, "cases covered: %s" % sorted(seen)
 
 
 def classify_belief(cond, truth):
